@@ -64,6 +64,14 @@ func FloatValues(stride int) []float64 {
 		p := math.Ldexp(1, e)
 		out = append(out, p, math.Nextafter(p, math.Inf(1)), math.Nextafter(p, math.Inf(-1)), -p)
 	}
+	// every power of two of the float64 range with short significands: width selection must look at the exponent too
+	for e := -1074; e <= 1023; e++ {
+		p := math.Ldexp(1, e)
+		out = append(out, p, -p)
+		if e > -1060 {
+			out = append(out, math.Ldexp(1.5, e), -math.Ldexp(1.0009765625, e), math.Ldexp(1.00390625, e))
+		}
+	}
 	out = append(out, math.MaxFloat64, -math.MaxFloat64, math.SmallestNonzeroFloat64, -math.SmallestNonzeroFloat64,
 		math.Float64frombits(0x000fffffffffffff), math.Float64frombits(0x0010000000000000), // largest subnormal, smallest normal
 		math.MaxFloat32, math.SmallestNonzeroFloat32, 0, math.Copysign(0, -1), math.Inf(1), math.Inf(-1),
@@ -155,6 +163,23 @@ func TimeValues(latlongWindow int) []compact_time.Time {
 		h := hms[i%len(hms)]
 		out = append(out, compact_time.NewTime(h[0], h[1], h[2], h[3], tz))
 		out = append(out, compact_time.NewTimestamp(2000+i%30, 1+i%12, 1+i%28, h[0], h[1], h[2], h[3], tz))
+	}
+	// area/location names of every length 1..70 in four time shapes (encoded sizes cross every scratch-buffer size)
+	for n := 1; n <= 70; n++ {
+		name := []byte("A")
+		for len(name) < n {
+			if len(name) == 3 || len(name) == 20 {
+				name = append(name, '/')
+			} else {
+				name = append(name, byte('a'+len(name)%26))
+			}
+		}
+		if name[len(name)-1] == '/' {
+			name[len(name)-1] = 'q'
+		}
+		tz := compact_time.TZAtAreaLocation(string(name))
+		out = append(out, compact_time.NewTime(10, 0, 1, 0, tz), compact_time.NewTime(10, 0, 1, 930000000, tz),
+			compact_time.NewTimestamp(2020, 1, 15, 10, 0, 1, 0, tz), compact_time.NewTimestamp(2020, 1, 15, 10, 0, 1, 123456789, tz))
 	}
 	for _, h := range hms {
 		out = append(out, compact_time.NewTime(h[0], h[1], h[2], h[3], compact_time.TZAtUTC()))
@@ -303,4 +328,45 @@ func (k ArrayKind) Content(n int) []byte {
 		}
 	}
 	return b
+}
+
+
+// Representatives: one value (possibly a multi-event sequence) per encoding form, used by the pair sweep: every ordered
+// pair (a, b) is encoded in one document so that state shared between consecutive values (scratch buffers, cursors,
+// pending headers) is exercised.
+func Representatives() [][]ev.E {
+	one := func(e ev.E) []ev.E { return []ev.E{e} }
+	var out [][]ev.E
+	for _, e := range []ev.E{ev.ENull(), ev.ETrue(), ev.EPInt(5), ev.EPInt(200), ev.EPInt(70000), ev.EPInt(1 << 33), ev.EPInt(0x123456789a), ev.EPInt(0xffffffffffff),
+		ev.EPInt(1<<56 + 1), ev.EPInt(1<<63 + 5), ev.ENInt(7), ev.ENInt(300), ev.ENInt(0xfedcba9876), ev.ENInt(1<<63 + 5), ev.EBigInt(Pow2(70)), ev.EBigInt(new(big.Int).Neg(Pow2(130))),
+		ev.EFloat(1.5), ev.EFloat(float64(float32(0.1))), ev.EFloat(0.1), ev.ENaN(false), ev.EFloat(math.Inf(-1)),
+		ev.EDFloat(compact_float.DFloatValue(-1, 15)), ev.EDFloat(compact_float.DFloatValue(-30, 123456789012345678)),
+		ev.EUID(UIDValues()[2]),
+		ev.ETime(compact_time.NewDate(2020, 1, 15)), ev.ETime(compact_time.NewTime(10, 0, 1, 0, compact_time.TZAtUTC())),
+		ev.ETime(compact_time.NewTimestamp(2020, 1, 15, 10, 0, 1, 123456789, compact_time.TZAtAreaLocation("Europe/Berlin"))),
+		ev.ETime(compact_time.NewTime(1, 2, 3, 4000, compact_time.TZAtLatLong(1234, -5678))),
+		ev.ETime(compact_time.NewTimestamp(1999, 12, 31, 23, 59, 59, 0, compact_time.TZWithMiutesOffsetFromUTC(-570))),
+		ev.EStr(""), ev.EStr("a"), ev.EStr("abcdefgh"), ev.EStr("0123456789abcde"), ev.EStr("0123456789abcdef"), ev.EStr("é€𝄞 forty characters long string.........."),
+		ev.ESArr(events.ArrayTypeResourceID, "http://x.y/z"), ev.ESArr(events.ArrayTypeReferenceRemote, "r"),
+		ev.EMedia("a/b", []byte{1, 2, 3}), ev.ECustomBin(5, []byte{9, 8, 7, 6}),
+	} {
+		out = append(out, one(e))
+	}
+	for _, k := range ArrayKinds() {
+		if k.Text || k.AT == events.ArrayTypeMedia || k.AT == events.ArrayTypeCustomBinary {
+			continue
+		}
+		for _, n := range []int{3, 17} {
+			out = append(out, one(k.Whole(k.Content(n), n)[0]))
+		}
+	}
+	// chunked forms with split data
+	out = append(out, []ev.E{ev.EABegin(events.ArrayTypeString), ev.EChunk(2, true), ev.EData([]byte("ab")), ev.EChunk(3, false), ev.EData([]byte("c")), ev.EData([]byte("de"))})
+	k16 := ArrayKinds()[8]
+	c := k16.Content(4)
+	out = append(out, []ev.E{ev.EABegin(events.ArrayTypeUint16), ev.EChunk(1, true), ev.EData(c[:1]), ev.EData(c[1:2]), ev.EChunk(3, false), ev.EData(c[2:5]), ev.EData(c[5:])})
+	out = append(out, []ev.E{ev.ECBegin(events.ArrayTypeCustomBinary, 2), ev.EChunk(2, false), ev.EData([]byte{1}), ev.EData([]byte{2})})
+	out = append(out, []ev.E{ev.EMBegin("a/b"), ev.EChunk(2, true), ev.EData([]byte{1, 2}), ev.EChunk(2, false), ev.EData([]byte{3, 4})})
+	out = append(out, []ev.E{ev.EList(), ev.EEnd()}, []ev.E{ev.EMap(), ev.EStr("k"), ev.EPInt(1), ev.EEnd()})
+	return out
 }
